@@ -2,6 +2,7 @@ package c08
 
 import (
 	"bytes"
+	"context"
 	"crypto/sha256"
 	"fmt"
 	"os"
@@ -11,6 +12,7 @@ import (
 	"sort"
 	"strconv"
 	"strings"
+	"syscall"
 	"testing"
 	"time"
 
@@ -24,16 +26,21 @@ type fuzzTarget struct {
 	fn    string // Fuzz function in harness/c08/fuzz
 	entry string
 	langs []textmut.Lang
+	execs int // fuzz iterations (-fuzztime=Nx): ≈ 60–90 s with 16 workers on an otherwise idle 16-core machine
 }
 
+// The campaign is bounded by iteration counts, not by time, so that a loaded
+// machine does less per second but not less in total; a wall-clock cap per
+// target only protects the driver's process time-out (hitting it is noted as
+// inconclusive, never as a violation).
 var fuzzTargets = []fuzzTarget{
-	{"FuzzFormat", "format", []textmut.Lang{textmut.Wa, textmut.Wz}},
-	{"FuzzSyntax", "syntax", []textmut.Lang{textmut.Wa, textmut.Wz, textmut.Wat, textmut.Asm}},
-	{"FuzzParseWa", "parse_wa", []textmut.Lang{textmut.Wa}},
-	{"FuzzParseWz", "parse_wz", []textmut.Lang{textmut.Wz}},
-	{"FuzzLoad", "load", []textmut.Lang{textmut.Wa, textmut.Wz}},
-	{"FuzzWat", "wat_parse", []textmut.Lang{textmut.Wat}},
-	{"FuzzNative", "native_parse", []textmut.Lang{textmut.Asm}},
+	{"FuzzFormat", "format", []textmut.Lang{textmut.Wa, textmut.Wz}, 60000},
+	{"FuzzSyntax", "syntax", []textmut.Lang{textmut.Wa, textmut.Wz, textmut.Wat, textmut.Asm}, 600000},
+	{"FuzzParseWa", "parse_wa", []textmut.Lang{textmut.Wa}, 120000},
+	{"FuzzParseWz", "parse_wz", []textmut.Lang{textmut.Wz}, 120000},
+	{"FuzzLoad", "load", []textmut.Lang{textmut.Wa, textmut.Wz}, 12000},
+	{"FuzzWat", "wat_parse", []textmut.Lang{textmut.Wat}, 200000},
+	{"FuzzNative", "native_parse", []textmut.Lang{textmut.Asm}, 300000},
 }
 
 // fuzzNames mirrors harness/c08/fuzz.Names (index = the fuzz target's uint8 argument).
@@ -137,7 +144,7 @@ func TestFuzzCampaign(t *testing.T) {
 	}
 	s := core.NewStats(Prop, "FuzzCampaign")
 	defer s.Flush()
-	s.Rule("native go test -fuzz, in-process targets per entry point (16 fuzz workers, ≈75 s each) seeded with the repository corpus and the hostile constants that pass the worker oracle; every crasher and every new-coverage input the fuzzer kept (≤ 1500 per target) is re-evaluated through the worker oracle, which alone decides; evaluations = inputs re-evaluated there (fuzzer executions are reported as the counter native_fuzz_execs); non-trivial as in the rapid tier")
+	s.Rule("native go test -fuzz, in-process targets per entry point (16 fuzz workers, a fixed number of fuzz iterations per target: 12000 for load … 600000 for syntax, ≈ 60–90 s each on an idle machine, wall-clock cap 300 s) seeded with the repository corpus and the hostile constants that pass the worker oracle; every crasher and every new-coverage input the fuzzer kept (≤ 1500 per target) is re-evaluated through the worker oracle, which alone decides; evaluations = inputs re-evaluated there (fuzzer executions are reported as the counter native_fuzz_execs); non-trivial as in the rapid tier")
 	mf, ok := modfileFlag()
 	if !ok {
 		s.Note("native fuzzing skipped: VERIF_REPO is a scratch copy but no alternate go.mod was found")
@@ -157,7 +164,7 @@ func TestFuzzCampaign(t *testing.T) {
 	if out, err := cmd.CombinedOutput(); err != nil {
 		t.Fatalf("harness: cannot build the fuzz targets: %v\n%s", err, out)
 	}
-	fuzzTime := envInt("C08_FUZZTIME", 75)
+	fuzzTime := envInt("C08_FUZZTIME", 300) // wall-clock cap per target, seconds
 	workers := envInt("C08_FUZZWORKERS", 16)
 	only := os.Getenv("C08_FUZZ_ONLY")
 	for _, ft := range fuzzTargets {
@@ -175,15 +182,26 @@ func runFuzzTarget(t *testing.T, s *core.Stats, corp *textmut.Corpus, ft fuzzTar
 	os.MkdirAll(seedDir, 0o755)
 	// seed corpus: everything that the worker oracle accepts (a seed that crashes is
 	// already reported by TestCorpus; the in-process fuzzer would stop on it)
+	// (a stride sample of the repository files: the rapid tier already drives all of
+	// them, the fuzzer needs starting points, and every seed costs baseline time)
 	var seeds []textmut.Seed
 	for _, l := range ft.langs {
+		var small []textmut.Seed
 		for _, sd := range corp.Seeds(l) {
-			if len(sd.Text) <= 16<<10 {
-				seeds = append(seeds, sd)
+			if len(sd.Text) <= 8<<10 {
+				small = append(small, sd)
 			}
 		}
+		stride := 1 + len(small)*len(ft.langs)/120
+		for i := 0; i < len(small); i += stride {
+			seeds = append(seeds, small[i])
+		}
 	}
-	seeds = append(seeds, textmut.Hostile()...)
+	for _, h := range textmut.Hostile() {
+		if len(h.Text) <= 2<<10 {
+			seeds = append(seeds, h)
+		}
+	}
 	nseed := 0
 	for i, sd := range seeds {
 		name := "x.txt"
@@ -212,7 +230,7 @@ func runFuzzTarget(t *testing.T, s *core.Stats, corp *textmut.Corpus, ft fuzzTar
 			s.Counter("seeds_not_given_to_fuzzer/"+v.Outcome, 1)
 			continue
 		}
-		if v.CPUms > 300 {
+		if v.CPUms > 100 {
 			// the fuzzer has a wall-clock watchdog per input; slow seeds would trip it on a loaded machine
 			s.Counter("seeds_not_given_to_fuzzer/slow", 1)
 			continue
@@ -224,19 +242,30 @@ func runFuzzTarget(t *testing.T, s *core.Stats, corp *textmut.Corpus, ft fuzzTar
 	s.Counter(ft.fn+"/seeds", int64(nseed))
 
 	deadline := time.Duration(fuzzTime) * time.Second
+	remaining := int64(ft.execs)
 	var execs int64
 	crashers := map[string]bool{}
-	for attempt := 0; attempt < 8 && deadline >= 10*time.Second; attempt++ {
-		start := time.Now() // wall clock only budgets the campaign; it never decides a verdict
-		cmd := exec.Command(bin, "-test.run=^$", "-test.fuzz=^"+ft.fn+"$", fmt.Sprintf("-test.fuzztime=%ds", int(deadline.Seconds())),
+	for attempt := 0; attempt < 8 && deadline >= 10*time.Second && remaining > 0; attempt++ {
+		start := time.Now() // wall clock only caps the campaign; it never decides a verdict
+		ctx, cancel := context.WithTimeout(context.Background(), deadline)
+		cmd := exec.CommandContext(ctx, bin, "-test.run=^$", "-test.fuzz=^"+ft.fn+"$", fmt.Sprintf("-test.fuzztime=%dx", remaining),
 			fmt.Sprintf("-test.parallel=%d", workers), "-test.fuzzcachedir="+cacheDir, "-test.timeout=0")
 		cmd.Dir = dir
+		cmd.SysProcAttr = &syscall.SysProcAttr{Setpgid: true}
+		cmd.Cancel = func() error { return syscall.Kill(-cmd.Process.Pid, syscall.SIGKILL) }
 		out, err := cmd.CombinedOutput()
+		capped := ctx.Err() != nil
+		cancel()
 		if ms := execsRe.FindAllStringSubmatch(string(out), -1); len(ms) > 0 {
 			n, _ := strconv.ParseInt(ms[len(ms)-1][1], 10, 64)
 			execs += n
+			remaining -= n
 		}
 		deadline -= time.Since(start)
+		if capped {
+			s.Note(fmt.Sprintf("%s: wall-clock cap reached after %d of %d fuzz iterations (inconclusive for the rest)", ft.fn, execs, ft.execs))
+			break
+		}
 		if err == nil {
 			break
 		}
